@@ -7,7 +7,9 @@
 EXTENDS Naturals, Sequences, TLC, Json, IOUtils, TLCExt
 Rows == JsonDeserialize(IOEnv.TRACE_FILE)
 Bound == 8
-Grows(r) == LET n == Len(r.live) IN r.live[n] > r.live[1] /\ r.live[n] > Bound
+\* rows that count ALL gc-tracked objects (per 100 requests) carry their own bound: a leak of one object per request shows as
+\* >= 100, one-time cache fills of the interpreter as a handful
+Grows(r) == LET n == Len(r.live) IN r.live[n] > r.live[1] /\ r.live[n] > (IF "bound" \in DOMAIN r THEN r.bound ELSE Bound)
 VARIABLE x
 Init == x = 0
 Next == UNCHANGED x
